@@ -159,7 +159,16 @@ def check_case(ctx, case):
     is_utc = z == "UTC"
     if shape == "UTCPROP":
         return check_utc_props(ctx, prov, dt, w)
-    comp = Todo() if shape == "DUE" else FreeBusy() if shape == "FREEBUSY-period" else Event()
+    from icalendar import Journal
+    # (the kind of component does not matter for how a value is written: DTSTART/DTEND also on VFREEBUSY, DTSTART on VTODO/VJOURNAL)
+    pick = (w.second + w.minute + w.day) % 4
+    comp = (Todo() if shape == "DUE" else FreeBusy() if shape == "FREEBUSY-period" else
+            (Event(), FreeBusy(), Event(), Todo())[pick] if shape == "DTSTART" else
+            (Event(), FreeBusy())[pick % 2] if shape == "DTEND" else
+            (Event(), Journal(), Todo(), Event())[pick] if shape in ("RECURRENCE-ID", "RDATE-list", "EXDATE-list") else Event())
+    if (w.second + w.hour) % 5 == 0 and src != "dateutil" and shape != "UTCPROP":
+        # a sub-second part is not written (DATE-TIME has none): it is cut off, the wall-clock fields stay
+        dt = dt.replace(microsecond=700000)
     w2 = w + timedelta(hours=2)
     dt2 = make_source(src, z, w2) if w2.year < 9999 else None
     name = shape if shape in ("DTSTART", "DTEND", "DUE", "RECURRENCE-ID") else shape.split("-")[0]
